@@ -5,6 +5,7 @@ CONSTANTS
   MaxShift = 40
   Fams = {"pair", "flat", "range", "func", "perm", "num", "bits", "wide", "xperm", "pow", "powbig"}
   MaxWide = 2
+  MaxWideB = 1
   MaxXPerm = 3
   PowExps = {31, 32, 53, 64, 100, 127, 128, 255, 256, 400}
   Export = TRUE
